@@ -497,6 +497,84 @@ Proof.
   - intros fuel resp q s x Hx. destruct (fhandle_verified fuel resp q s) as [_ H]. apply H. exact Hx.
 Qed.
 
+(* ---- the store only gains blocks that were requested ---- *)
+
+(* the request log only grows, and an entry of s' was in s or is for a CID that was requested *)
+Definition req_ext (reqs : list cid) (s : bstore) (reqs' : list cid) (s' : bstore) : Prop :=
+  (forall x, In x reqs -> In x reqs') /\ (forall e, In e s' -> In e s \/ In (fst e) reqs').
+
+Lemma req_ext_refl reqs s : req_ext reqs s reqs s.
+Proof. split; auto. Qed.
+
+Lemma req_ext_trans r1 s1 r2 s2 r3 s3 : req_ext r1 s1 r2 s2 -> req_ext r2 s2 r3 s3 -> req_ext r1 s1 r3 s3.
+Proof.
+  intros [A1 B1] [A2 B2]. split; [auto|]. intros e He. destruct (B2 e He) as [H|H]; [|auto].
+  destruct (B1 e H) as [H'|H']; auto.
+Qed.
+
+Lemma fetch_block_req_ext resp reqs c s :
+  let '(reqs1, s1, ob) := fetch_block resp reqs c s in req_ext reqs s reqs1 s1.
+Proof.
+  unfold C02_FetchVerify.fetch_block. destruct (local_ok s c); [apply req_ext_refl|].
+  assert (G : req_ext reqs s (reqs ++ [c]) s) by (split; [intros; apply in_or_app; auto|auto]).
+  destruct (resp (length reqs)) as [b|]; [|exact G].
+  destruct (hashes_to b c); [|exact G].
+  split; [intros; apply in_or_app; auto|].
+  intros e [<-|He]; [right; cbn; apply in_or_app; right; left; reflexivity|left; exact He].
+Qed.
+
+Lemma fwalk_req_ext resp v stop : forall fuel lim c reqs s,
+  let o := fwalk fuel resp v stop lim c reqs s in req_ext reqs s (f_reqs body o) (f_store body o).
+Proof.
+  induction fuel as [|f IH]; intros lim c reqs s; [apply req_ext_refl|].
+  cbv zeta. rewrite fwalk_unfold.
+  destruct (verifiable c); cbn [negb]; [|apply req_ext_refl].
+  pose proof (fetch_block_req_ext resp reqs c s) as F.
+  destruct (fetch_block resp reqs c s) as [[reqs1 s1] ob].
+  destruct ob as [b|]; [|exact F].
+  destruct (links_of b) as [es|]; [|exact F].
+  assert (K : forall l acc, req_ext reqs s (f_reqs body acc) (f_store body acc) ->
+    let o := fwalk_kids f resp v stop lim l acc in req_ext reqs s (f_reqs body o) (f_store body o)).
+  { induction l as [|e r IHl]; intros acc E; [exact E|].
+    cbn [fwalk_kids]. destruct (is_stop stop e || negb (deeper lim)); [apply IHl; exact E|].
+    pose proof (IH (dec_lim lim) e (f_reqs body acc) (f_store body acc)) as E2. cbv zeta in E2.
+    set (o := fwalk f resp v stop (dec_lim lim) e (f_reqs body acc) (f_store body acc)) in *.
+    assert (E3 : req_ext reqs s (f_reqs body o) (f_store body o)) by (eapply req_ext_trans; eassumption).
+    destruct (f_res body o); try exact E3. apply IHl. exact E3. }
+  apply K. exact F.
+Qed.
+
+Lemma fseg_loop_req_ext wfuel resp v stop orig segdl h r0 s0 : forall fuel nd dsf next acc,
+  req_ext r0 s0 (fh_reqs body acc) (fh_store body acc) ->
+  let o := fseg_loop fuel wfuel resp v stop orig segdl h nd dsf next acc in
+  req_ext r0 s0 (fh_reqs body o) (fh_store body o).
+Proof.
+  induction fuel as [|f IH]; intros nd dsf next acc E; [exact E|].
+  cbn [C02_FetchVerify.fseg_loop].
+  pose proof (fwalk_req_ext resp v stop wfuel (Some nd) next (fh_reqs body acc) (fh_store body acc)) as E2. cbv zeta in E2.
+  set (o := fwalk wfuel resp v stop (Some nd) next (fh_reqs body acc) (fh_store body acc)) in *.
+  assert (E3 : req_ext r0 s0 (f_reqs body o) (f_store body o)) by (eapply req_ext_trans; eassumption).
+  destruct (f_res body o); try exact E3.
+  destruct (fnominated body links_of (f_store body o) h (f_order body o)) as [n|]; [|exact E3].
+  destruct (is_stop stop n); [exact E3|].
+  destruct orig as [D|].
+  - destruct (D <=? dsf + nd)%nat; [exact E3|]. apply IH. exact E3.
+  - apply IH. exact E3.
+Qed.
+
+(* whatever the publisher answers: every entry a sync adds to the store is for a CID that
+   this sync requested (the publisher cannot put a block of its choosing into the store) *)
+Theorem only_requested_is_stored_proved fuel resp q s e :
+  let o := fhandle fuel resp q s in
+  In e (fh_store body o) -> In e s \/ In (fst e) (fh_reqs body o).
+Proof.
+  cbv zeta. unfold C02_FetchVerify.fhandle. destruct (seg_enabled (fs_segdl q) (fs_hook q) (fs_lim q)).
+  - intro He. eapply (fseg_loop_req_ext fuel resp (fs_view q) (fs_stop q)); [|exact He]. apply req_ext_refl.
+  - unfold C02_FetchVerify.fhandle_plain.
+    pose proof (fwalk_req_ext resp (fs_view q) (fs_stop q) fuel (fs_lim q) (fs_head q) [] s) as [_ E]. cbv zeta in E.
+    destruct (f_res body (fwalk fuel resp (fs_view q) (fs_stop q) (fs_lim q) (fs_head q) [] s)); cbn; apply E.
+Qed.
+
 End Fetch.
 
 (* ================================================================ *)
